@@ -201,6 +201,11 @@ func doOp(vm data.VM, o Op) (res Res) {
 				res.D = srcID(x.GetFrom())
 			}
 		}
+	case "addns":
+		// parser.DefaultClassPathManager.AddNamespace concurrently with FindClassFile/LoadClass
+		if autoDir != "" {
+			vm.AddNamespace(o.Name, autoDir)
+		}
 	case "depth":
 		res.D = vm.EnterCall()
 		vm.LeaveCall()
@@ -429,5 +434,42 @@ func runStress() {
 		o["results"] = results // one per completed configuration; the next one (if any) was in flight at death
 		o["n"] = nb
 		out.Encode(o)
+	})
+}
+
+// ---------------------------------------------------------------- script: real scripts with spawn (std/spawn.go)
+// stdin: {"src":"...","repeat":n,"autoload":[...],"gomaxprocs":g}; each repetition runs the script in-process on a
+// fresh VM with the standard library (vrun) and the autoload namespace App; run in a child process by `stress`-like
+// attribution: this mode is itself the child (the driver restarts it when it dies).
+func runScript() {
+	out := json.NewEncoder(os.Stdout)
+	vrun.Lines(func(line string) {
+		if strings.TrimSpace(line) == "" {
+			return
+		}
+		var c struct {
+			Src        string     `json:"src"`
+			Repeat     int        `json:"repeat"`
+			Autoload   []AutoFile `json:"autoload"`
+			GoMaxProcs int        `json:"gomaxprocs"`
+		}
+		if err := json.Unmarshal([]byte(line), &c); err != nil {
+			out.Encode(map[string]any{"err": err.Error()})
+			return
+		}
+		if c.GoMaxProcs > 0 {
+			runtime.GOMAXPROCS(c.GoMaxProcs)
+		}
+		setupAutoload(c.Autoload)
+		var outs []map[string]string
+		for i := 0; i < c.Repeat; i++ {
+			r := vrun.RunStringSpawn(c.Src, "c10script.php", func(vm data.VM) {
+				if autoDir != "" {
+					vm.AddNamespace("App", autoDir)
+				}
+			})
+			outs = append(outs, map[string]string{"out": r.Out, "outcome": r.Outcome, "detail": r.Detail})
+		}
+		out.Encode(map[string]any{"runs": outs})
 	})
 }
